@@ -29,5 +29,6 @@ func controlsC04() []Control {
 		{Name: "initial positioning succeeds without positions when the seat choice worked", Expect: "R7", Mutate: replaceIn("(*seatManager).initPositions", "seatID, err := sm.randomOccupiedSeat()\n\t\tif err != nil {", "seatID, err := sm.randomOccupiedSeat()\n\t\tif err == nil {", 0)},
 		{Name: "backwards search ignores eligibility", Expect: "R5", Mutate: replaceIn("(*seatManager).previousOccupiedSeatID", "if shouldActive && sp.Active() {", "if shouldActive || sp.Active() {", 0)},
 		{Name: "seat count clobbered on short deck rotation", Expect: "R1", Mutate: replaceIn("(*seatManager).rotatePositions", "sm.DealerSeatID = sm.nextOccupiedSeatID(sm.DealerSeatID)\n\t\tsm.SBSeatID = UnsetSeatID", "sm.DealerSeatID = sm.nextOccupiedSeatID(sm.DealerSeatID)\n\t\tsm.MaxSeat = UnsetSeatID", 0)},
+		{Name: "heads-up predicate ignores the big blind", Expect: "R2", Mutate: replaceIn("(*seatManager).IsHU", " && sm.CurrentBBSeatID() != sm.CurrentDealerSeatID()", "", 0)},
 	}
 }
